@@ -212,3 +212,79 @@ def replay(f):
             "C10.free_attribute_updatable": exc is not None,
         }
         return res.get(ob, False), detail
+
+
+def prebuilt_harness(ctx, cfg):
+    """Tracks constructed WITH a pre-built feature registry: exactly the listed features that an
+    annotator can manage are activated, none is recomputed, the registry is the one passed in."""
+    import warnings
+
+    import networkx as nx
+    import numpy as np
+
+    from funtracks.data_model import SolutionTracks
+    from funtracks.features import FeatureDict, Time
+
+    with_seg = cfg.get("seg", True)
+    probe_g = nx.DiGraph()
+    seg = np.zeros((2, 1, 2), dtype=np.int64)
+    seg[0, 0, 0] = 1
+    with warnings.catch_warnings():
+        warnings.simplefilter("ignore")
+        probe = SolutionTracks(probe_g, segmentation=seg.copy() if with_seg else None, ndim=3, time_attr=TK,
+                               tracklet_attr=TID, lineage_attr=LID)
+    avail = {k: f for k, (f, _) in probe.annotators.all_features.items()}
+    chosen = [k for k in avail if ctx.choose(2, "in_" + k) == 1]
+    ctx.input("seg", with_seg)
+    ctx.input("chosen", chosen)
+    feats = {TK: Time()}
+    for k in chosen:
+        feats[k] = avail[k]
+    pos_key = POS if (POS in chosen or not with_seg) else None
+    if not with_seg:
+        from funtracks.features import Position
+
+        feats[POS] = Position(axes=["y", "x"])
+    fd = FeatureDict(features=feats, time_key=TK, position_key=pos_key, tracklet_key=TID if TID in chosen else None,
+                     lineage_key=LID if LID in chosen else None)
+    g = nx.DiGraph()
+    marker = {k: (7 if k in (TID, LID) else ("marker", k)) for k in avail}
+    g.add_node(1, **{TK: 0, POS: [0.0, 0.0], **marker})
+    keys0 = sorted(fd.keys())
+    with warnings.catch_warnings():
+        warnings.simplefilter("ignore")
+        tr = SolutionTracks(g, segmentation=seg.copy() if with_seg else None, ndim=3, features=fd)
+    ctx.tag("constructed")
+    tab = table(tr)
+    # (an annotator falls back to its default key names for keys the registry does not define)
+    ctx.oblige("C10.prebuilt_registry_activates_exactly_listed", tab == {k: (k in fd) for k in tab}, "C10")
+    ctx.oblige("C10.prebuilt_registry_kept", sorted(tr.features.keys()) == keys0 and tr.features is fd, "C10")
+    ctx.oblige("C10.prebuilt_registry_no_recompute", all(g.nodes[1][k] == marker[k] for k in avail), "C10")
+
+
+def prebuilt_replay(f):
+    from sx import rt
+
+    ctx = rt.Ctx()
+    chosen = f["inputs"]["chosen"]
+    seq = iter(chosen)
+    # re-run the same construction concretely: choose() answers follow the recorded selection
+    import types
+
+    res = {}
+
+    class C:
+        def choose(self, n, label=""):
+            return 1 if label[3:] in chosen else 0
+
+        def input(self, *a):
+            pass
+
+        def tag(self, *a):
+            pass
+
+        def oblige(self, name, claim, prop=None):
+            res[name] = bool(claim)
+
+    prebuilt_harness(C(), dict(seg=f["inputs"]["seg"]))
+    return (res.get(f["obligation"]) is False), f"chosen={chosen} results={res}"
